@@ -30,9 +30,15 @@ class Program(object):
     def start_params(self):
         return {'task_name': self.target} if self.type == 'reverse' else {}
 
-    def yaml(self):
+    def yaml(self, part='all'):
+        """part: 'all' | 'root' | 'subs' (the root may live in another namespace than its sub-workflows)."""
         out = ["version: '2.0'", '']
-        for nm, p in [(self.name, self)] + sorted(self.subs.items()):
+        items = [(self.name, self)] + sorted(self.subs.items())
+        if part == 'root':
+            items = items[:1]
+        elif part == 'subs':
+            items = items[1:]
+        for nm, p in items:
             out += p._yaml_wf(nm)
         return '\n'.join(out) + '\n'
 
@@ -206,6 +212,17 @@ def gen_direct(rnd, n=None, partial_joins=True, p_sub=0.0, p_items=0.0, p_retry=
                 S.tasks[st] = {'kind': 'action', 'succ': ([{'to': S.order[i + 1]}] if i + 1 < k else []), 'err': [], 'comp': []}
                 P.oracle[st] = [rnd.choices(['ok', 'err'], [0.75, 0.25])[0]]
             P.subs[sn] = S
+            # depth 2: the sub-workflow may itself call a leaf sub-workflow
+            if rnd.random() < 0.4:
+                ln = sn + 'leaf'
+                L2 = Program()
+                L2.name = ln
+                L2.order = [ln + 'x0']
+                L2.tasks[ln + 'x0'] = {'kind': 'action', 'succ': [], 'err': [], 'comp': []}
+                P.oracle[ln + 'x0'] = [rnd.choices(['ok', 'err'], [0.8, 0.2])[0]]
+                P.subs[ln] = L2
+                S.tasks[S.order[-1]]['kind'] = 'workflow'
+                S.tasks[S.order[-1]]['workflow'] = ln
             d['kind'] = 'workflow'
             d['workflow'] = sn
             P.flags['sub'] = True
